@@ -12,6 +12,7 @@ package main
 // table cell and whose taken edge always returns an error, and compares the values that reach gorgonia.
 
 import (
+	"fmt"
 	"go/constant"
 	"go/token"
 	"go/types"
@@ -27,20 +28,20 @@ const (
 	pUnknown pkind = iota
 	pInt
 	pBool
-	pTensor   // the i-th element of Apply's inputs
-	pShape    // Shape() of the i-th input
-	pData     // Data() of the i-th input
-	pRecv     // the operator receiver
-	pInputs   // Apply's inputs slice
-	pNil      // a nil interface / pointer / error
-	pList     // a []int (or *[N]int) with known content: heap id i
-	pElemAddr // address of element j of list i
-	pDimAddr  // address of extent j of the shape of input i
-	pShapeOpt // tensor.WithShape(shape of input i...)
-	pShaped   // a tensor built with the shape of input i (its data is unknown); j: heap id of its live shape
-	pRevList  // sort.Reverse(sort.IntSlice(list i))
-	pFunc     // a function value (fn)
-	pSym      // an unknown that must be decided consistently along a path: receiver field i (b: negated)
+	pTensor    // the i-th element of Apply's inputs
+	pShape     // Shape() of the i-th input
+	pData      // Data() of the i-th input
+	pRecv      // the operator receiver
+	pInputs    // Apply's inputs slice
+	pNil       // a nil interface / pointer / error
+	pList      // a []int (or *[N]int) with known content: heap id i
+	pElemAddr  // address of element j of list i
+	pDimAddr   // address of extent j of the shape of input i
+	pShapeOpt  // tensor.WithShape(shape of input i...)
+	pShaped    // a tensor built with the shape of input i (its data is unknown); j: heap id of its live shape
+	pRevList   // sort.Reverse(sort.IntSlice(list i))
+	pFunc      // a function value (fn)
+	pSym       // an unknown that must be decided consistently along a path: receiver field i (b: negated)
 	pStr       // a string constant (s)
 	pObj       // pointer to a struct object on the heap (i: object id)
 	pFieldAddr // address of field j of object i
@@ -50,7 +51,7 @@ const (
 	pAbs       // an abstract value the client names (i: id, s: label): an operator, a tensor, ...
 	pHookFn    // a function value whose calls go to the client (i: id)
 	pNonNil    // an interface / pointer / error known not to be nil (refined on the edge of a nil test)
-	pPoison   // a value the walk once knew and lost (forgotten list, disagreeing callee paths): never branch on it
+	pPoison    // a value the walk once knew and lost (forgotten list, disagreeing callee paths): never branch on it
 )
 
 type pval struct {
@@ -66,6 +67,7 @@ type pval struct {
 
 type pobj struct {
 	fields map[int]pval
+	typ    types.Type // the struct type, when the object was allocated with one
 }
 
 type pmap struct {
@@ -90,12 +92,16 @@ func newHeap() *pheap {
 	return &pheap{lists: map[int64][]pval{}, poison: map[int64]bool{}, objs: map[int64]*pobj{}, maps: map[int64]*pmap{}, iters: map[int64]*piter{}}
 }
 
-func (h *pheap) newObj() pval {
+func (h *pheap) newObj(typ ...types.Type) pval {
 	h.next++
 	if h.objs == nil {
 		h.objs = map[int64]*pobj{}
 	}
-	h.objs[h.next] = &pobj{fields: map[int]pval{}}
+	o := &pobj{fields: map[int]pval{}}
+	if len(typ) == 1 {
+		o.typ = typ[0]
+	}
+	h.objs[h.next] = o
 	return pval{k: pObj, i: h.next}
 }
 
@@ -150,7 +156,7 @@ func (h *pheap) clone() *pheap {
 		n.poison[k] = true
 	}
 	for k, o := range h.objs {
-		c := &pobj{fields: make(map[int]pval, len(o.fields))}
+		c := &pobj{fields: make(map[int]pval, len(o.fields)), typ: o.typ}
 		for f, v := range o.fields {
 			c.fields[f] = v
 		}
@@ -185,20 +191,21 @@ type pinterp struct {
 	field     func(h *pheap, named *types.Named, idx int) (pval, bool) // value of a receiver field
 	rankOf    func(input int64) (int64, bool)
 	extentOf  func(input, axis int64) (int64, bool)
-	present   func(input int64) bool               // optional input supplied? (nil func: unknown)
-	inputList func(input int64) ([]int64, bool)    // integer content of a tensor-valued list input
-	callSeed  func(call *ssa.Call) (pval, bool)    // value of a designated call (attribute getter)
+	present   func(input int64) bool            // optional input supplied? (nil func: unknown)
+	inputList func(input int64) ([]int64, bool) // integer content of a tensor-valued list input
+	callSeed  func(call *ssa.Call) (pval, bool) // value of a designated call (attribute getter)
 	onReject  func(fn *ssa.Function, iff *ssa.If, truth bool)
 	onPanic   func(fn *ssa.Function, in ssa.Instruction, what string)
 	onExt     func(fn *ssa.Function, call *ssa.Call, key string, operands []pval, h *pheap)
 	onLib     func(fn *ssa.Function, call *ssa.Call, callee *ssa.Function, args []pval, h *pheap)
-	onDyn     func(fn *ssa.Function, call *ssa.Call, args []pval, h *pheap) ([]pval, bool) // call through a function value
-	onReduce  func(fn *ssa.Function, call *ssa.Call, name string, shape []int64, axes []int64)  // a gorgonia reduction on a tensor of known shape
-	onRepeat  func(fn *ssa.Function, call *ssa.Call, shape []int64, axis, n int64)              // tensor.Repeat on a tensor of known shape
+	onDyn     func(fn *ssa.Function, call *ssa.Call, args []pval, h *pheap) ([]pval, bool)     // call through a function value
+	onReduce  func(fn *ssa.Function, call *ssa.Call, name string, shape []int64, axes []int64) // a gorgonia reduction on a tensor of known shape
+	onRepeat  func(fn *ssa.Function, call *ssa.Call, shape []int64, axis, n int64)             // tensor.Repeat on a tensor of known shape
 	onInvoke  func(fn *ssa.Function, call *ssa.Call, recv pval, method string, args []pval, h *pheap) ([]pval, bool)
 	onStore   func(fn *ssa.Function, in ssa.Instruction, obj int64, field int) // a field of a heap object is written
 	visited   map[*ssa.Function]bool
 	decided   int // branches on a known condition that depends on the seed
+	trace     bool
 	objects   bool // model struct objects, maps and slices of arbitrary values (the interpreter tables of the Run plumbing)
 	hdrCache  map[*ssa.Function]bool
 	listReads int
@@ -210,7 +217,7 @@ type pframe struct {
 	visits map[*ssa.BasicBlock]int
 	fields map[int]pval // receiver fields stored on this path (by field index)
 	heap   *pheap
-	forked *bool // set when any branch below this call was taken on an unknown condition
+	forked *bool          // set when any branch below this call was taken on an unknown condition
 	syms   map[int64]bool // decisions taken on symbolic unknowns along this path
 }
 
@@ -366,7 +373,12 @@ outer:
 			*incomplete = true
 			return
 		}
+		var prevIn ssa.Instruction
 		for _, in := range blk.Instrs {
+			if p.trace && prevIn != nil {
+				p.traceInstr(fn, fr, prevIn, depth)
+			}
+			prevIn = in
 			p.budget--
 			if p.budget < 0 {
 				p.aborted = true
@@ -438,7 +450,7 @@ outer:
 					switch o.k {
 					case pNil:
 						fr.env[x] = pval{k: pBool, b: x.Op == token.EQL}
-					case pTensor, pList, pShape, pData, pRecv, pInputs, pShaped, pNonNil, pFunc, pObj, pMap, pAbs, pHookFn, pStr:
+					case pTensor, pList, pShape, pData, pRecv, pInputs, pShaped, pNonNil, pFunc, pObj, pMap, pAbs, pHookFn, pStr, pStructVal:
 						fr.env[x] = pval{k: pBool, b: x.Op == token.NEQ}
 					}
 				}
@@ -479,7 +491,7 @@ outer:
 						// *p of a struct: a private copy
 						if o := fr.heap.objs[a.i]; o != nil {
 							if _, isStruct := x.Type().Underlying().(*types.Struct); isStruct {
-								c := fr.heap.newObj()
+								c := fr.heap.newObj(o.typ)
 								for f, v := range o.fields {
 									fr.heap.objs[c.i].fields[f] = v
 								}
@@ -555,7 +567,7 @@ outer:
 							fr.env[x] = fr.heap.alloc(l)
 						}
 					case *types.Struct:
-						fr.env[x] = fr.heap.newObj()
+						fr.env[x] = fr.heap.newObj(pt.Elem())
 					}
 				}
 			case *ssa.MakeSlice:
@@ -591,6 +603,17 @@ outer:
 							p.panicAt(fn, x, "index out of range")
 						}
 						return
+					}
+					if pt, ok := x.Type().Underlying().(*types.Pointer); ok && p.objects {
+						if _, isStruct := pt.Elem().Underlying().(*types.Struct); isStruct {
+							// the element is a struct value: it lives in an object of its own
+							if l[idx.i].k != pStructVal {
+								o := fr.heap.newObj(pt.Elem())
+								l[idx.i] = pval{k: pStructVal, i: o.i}
+							}
+							fr.env[x] = pval{k: pObj, i: l[idx.i].i}
+							break
+						}
 					}
 					fr.env[x] = pval{k: pElemAddr, i: base.i, j: idx.i}
 				case pShape:
@@ -751,10 +774,27 @@ outer:
 					delete(fr.env, x)
 					delete(fr.tuples, x)
 					// a tensor asserted to the tensor interface (or to *Dense, which every gonnx tensor is)
-					if v := p.val(fr, x.X); v.k == pShaped || v.k == pTensor {
+					v := p.val(fr, x.X)
+					if v.k == pShaped || v.k == pTensor {
 						if isTensorish(x.AssertedType) {
 							fr.tuples[x] = []pval{v, {k: pBool, b: true}}
 						}
+					}
+					if v.k == pObj {
+						if o := fr.heap.objs[v.i]; o != nil && o.typ != nil {
+							if _, isIface := x.AssertedType.Underlying().(*types.Interface); !isIface {
+								okT := types.Identical(types.NewPointer(o.typ), x.AssertedType)
+								if okT {
+									fr.tuples[x] = []pval{v, {k: pBool, b: true}}
+								} else {
+									fr.tuples[x] = []pval{{k: pNil}, {k: pBool, b: false}}
+								}
+							}
+						}
+					}
+					if v.k == pNil {
+						z, _ := zeroOf(x.AssertedType)
+						fr.tuples[x] = []pval{z, {k: pBool, b: false}}
 					}
 				}
 			case *ssa.Slice:
@@ -1129,6 +1169,57 @@ func (p *pinterp) call(fn *ssa.Function, fr *pframe, x *ssa.Call, depth int) {
 			}
 			return
 		}
+		if rv.k == pList && name == "Eq" && len(cc.Args) >= 1 {
+			// gorgonia's (tensor.Shape).Eq, shape.go l.117: (n) equals (n,1) and (1,n)
+			o := p.val(fr, cc.Args[len(cc.Args)-1])
+			if o.k == pShape {
+				if l, ok := p.shapeList(o.i); ok {
+					o = fr.heap.alloc(l)
+				}
+			}
+			a, b := fr.heap.lists[rv.i], fr.heap.lists[o.i]
+			if o.k == pList && a != nil && b != nil {
+				ints := func(l []pval) ([]int64, bool) {
+					out := make([]int64, len(l))
+					for i, e := range l {
+						if e.k != pInt {
+							return nil, false
+						}
+						out[i] = e.i
+					}
+					return out, true
+				}
+				sx, ok1 := ints(a)
+				sy, ok2 := ints(b)
+				if ok1 && ok2 {
+					col := func(s []int64) bool { return len(s) == 2 && s[1] == 1 && s[0] > 1 }
+					row := func(s []int64) bool { return len(s) == 2 && s[0] == 1 && s[1] > 1 }
+					vec := func(s []int64) bool { return col(s) || row(s) || len(s) == 1 }
+					res, done := false, false
+					if len(sx) == 0 && len(sy) == 0 {
+						res, done = true, true
+					}
+					if !done && vec(sx) && vec(sy) {
+						switch {
+						case len(sx) == 2 && len(sy) == 1:
+							res, done = (col(sx) && sx[0] == sy[0]) || (row(sx) && sx[1] == sy[0]), true
+						case len(sx) == 1 && len(sy) == 2:
+							res, done = (col(sy) && sy[0] == sx[0]) || (row(sy) && sy[1] == sx[0]), true
+						}
+					}
+					if !done {
+						res = len(sx) == len(sy)
+						for i := range sx {
+							if res && sx[i] != sy[i] {
+								res = false
+							}
+						}
+					}
+					fr.env[x] = pval{k: pBool, b: res}
+				}
+			}
+			return
+		}
 		if rv.k == pList && name == "Clone" {
 			if l := fr.heap.lists[rv.i]; l != nil {
 				fr.env[x] = fr.heap.alloc(append([]pval{}, l...))
@@ -1168,7 +1259,7 @@ func (p *pinterp) call(fn *ssa.Function, fr *pframe, x *ssa.Call, depth int) {
 					fr.tuples[x] = res
 					return
 				}
-			} else if (isLibFn(fv.fn) || isControlFn(fv.fn)) && len(fv.fn.Blocks) > 0 && depth < 5 {
+			} else if (isLibFn(fv.fn) || isControlFn(fv.fn)) && len(fv.fn.Blocks) > 0 && depth < p.maxDepth() {
 				res, h := p.run(fv.fn, args, depth+1, fr.heap.clone())
 				if h != nil {
 					fr.heap = h
@@ -1370,7 +1461,7 @@ func (p *pinterp) call(fn *ssa.Function, fr *pframe, x *ssa.Call, depth int) {
 		}
 		return
 	}
-	if !(isLibFn(sc) || isControlFn(sc)) || len(sc.Blocks) == 0 || depth >= 5 {
+	if !(isLibFn(sc) || isControlFn(sc)) || len(sc.Blocks) == 0 || depth >= p.maxDepth() {
 		args := make([]pval, len(cc.Args))
 		for i, a := range cc.Args {
 			args[i] = p.val(fr, a)
@@ -1572,4 +1663,28 @@ func zeroOf(t types.Type) (pval, bool) {
 	return pval{}, false
 }
 
-func nonNilKind(k pkind) bool { return k == pNonNil || k == pObj || k == pAbs }
+func nonNilKind(k pkind) bool { return k == pNonNil || k == pObj || k == pAbs || k == pStructVal }
+
+func (p *pinterp) traceInstr(fn *ssa.Function, fr *pframe, in ssa.Instruction, depth int) {
+	if _, isDbg := in.(*ssa.DebugRef); isDbg {
+		return
+	}
+	res := ""
+	if v, ok := in.(ssa.Value); ok {
+		if t, ok := fr.tuples[v]; ok {
+			res = fmt.Sprintf(" => tuple %v", t)
+		} else {
+			res = fmt.Sprintf(" => %v", fr.env[v])
+		}
+		fmt.Printf("%s[%s] %s = %s%s\n", strings.Repeat("  ", depth), fn.Name(), v.Name(), in.String(), res)
+		return
+	}
+	fmt.Printf("%s[%s] %s\n", strings.Repeat("  ", depth), fn.Name(), in.String())
+}
+
+func (p *pinterp) maxDepth() int {
+	if p.objects {
+		return 14
+	}
+	return 5
+}
